@@ -22,6 +22,7 @@ static void prod(int r, int n) { TR.emit("{\"e\":\"Prod\",\"r\":%d,\"n\":%d}", r
 static void inv(int t, int r, int need) { TR.emit("{\"e\":\"Inv\",\"t\":%d,\"r\":%d,\"need\":%d}", t, r, need); }
 static void res(int t, int r, int c) { TR.emit("{\"e\":\"Res\",\"t\":%d,\"r\":%d,\"c\":%d}", t, r, c); }
 
+static void hold_until_blocked_fwd(int w);
 struct Scen { int n; std::function<void()> setup; std::function<void(int)> body; std::function<void()> teardown; };
 
 // ---------------------------------------------------------------- raw concurrent_monitor
@@ -72,6 +73,27 @@ static Scen mtx(int n) {
     return {n, [] { MX = new tbb::mutex; prod(1, 1); track(MX); },
         [](int id) { for (int k = 0; k < 2; k++) { inv(id, 1, 1); MX->lock(); res(id, 1, 1); cosched::yield_point(); prod(1, 1); MX->unlock(); } }, [] { delete MX; }};
 }
+// two sync objects whose addresses fall into the SAME wait list of the address-waiter table (sleepers of different mutexes share a list; the wake-up of
+// unlock() must go to a sleeper of THIS mutex): thread 0 holds both, threads 1 and 2 fall asleep on one each (in either order), then M2 is released first
+static tbb::mutex* MA; static tbb::mutex* MB; static tbb::rw_mutex* RB;
+static std::size_t aw_bucket(void* a) { std::uintptr_t t = std::uintptr_t(a); return ((t >> 5) ^ t) % 2048; }     // = r1::get_address_waiter (if the formula changes the objects merely stop colliding)
+static Scen mtx2(int variant) {       // variant bit 0: which sleeper is older in the list; bit 1: the second object is an rw_mutex (a writer sleeps on it)
+    return {3, [variant] { static tbb::mutex pool[8192]; static tbb::rw_mutex rpool[4096]; MA = &pool[0]; MB = nullptr; RB = nullptr;
+            if (variant & 2) { for (int j = 0; j < 4096 && !RB; j++) if (aw_bucket(&rpool[j]) == aw_bucket(MA)) RB = &rpool[j]; }
+            else for (int j = 1; j < 8192 && !MB; j++) if (aw_bucket(&pool[j]) == aw_bucket(MA)) MB = &pool[j];
+            if (!MB && !RB) { MB = &pool[1]; } vh::rawstore(g_flag[0], 0); vh::rawstore(g_flag[1], 0); prod(1, 1); prod(2, 1); },
+        [variant](int id) {
+            auto lockB = [] { if (RB) RB->lock(); else MB->lock(); }; auto unlockB = [] { if (RB) RB->unlock(); else MB->unlock(); };
+            if (id == 0) { inv(0, 1, 1); MA->lock(); res(0, 1, 1); inv(0, 2, 1); lockB(); res(0, 2, 1); g_flag[0].store(1);
+                hold_until_blocked_fwd(1); hold_until_blocked_fwd(2); prod(2, 1); unlockB();
+                while (!g_flag[1].load()) cosched::yield_point();          // M1 stays locked until thread 2 is through: no other unlock may rescue a misdirected wake-up
+                prod(1, 1); MA->unlock(); }
+            else { while (!g_flag[0].load()) cosched::yield_point();
+                int first = (variant & 1) ? 2 : 1; if (id != first) hold_until_blocked_fwd(first);
+                if (id == 1) { inv(1, 1, 1); MA->lock(); res(1, 1, 1); prod(1, 1); MA->unlock(); }
+                else { inv(2, 2, 1); lockB(); res(2, 2, 1); prod(2, 1); unlockB(); g_flag[1].store(1); } }
+        }, [] {}};
+}
 static Scen rwm(int variant) {
     return {3, [] { RW = new tbb::rw_mutex; prod(1, BIG); track(RW); },
         [variant](int id) {
@@ -86,6 +108,7 @@ static tbb::task_arena* AR; static std::atomic<void*> g_sp;
 // sleeping paths of the scheduler waits are entered on purpose (the waiters spin for thousands of steps before they sleep).  Bounded: gives up
 // after `lim` yields so that a waiter that legitimately never sleeps cannot stall the scenario.
 static void hold_until_blocked(int w, long lim = 200000) { for (long i = 0; i < lim && !cosched::is_blocked(w) && !cosched::is_done(w); i++) cosched::yield_point(); }
+static void hold_until_blocked_fwd(int w) { hold_until_blocked(w); }
 static tbb::task_group* TG0; static tbb::task_handle* TH0;
 static Scen tgwait(int n, int ntasks, bool hold) {      // every arena thread waits for its own group; thread 0's group also holds a deferred task that thread 1
     return {n, [n] { AR = new tbb::task_arena(n, n); AR->initialize(); TG0 = nullptr; TH0 = nullptr; },     // submits - with hold only once thread 0 is asleep
@@ -156,6 +179,7 @@ static Scen make(const std::string& s) {
     if (s == "enqL1") return enq(2, 1, 2, 1, false); if (s == "enq1L1") return enq(1, 1, 2, 1, false); if (s == "enqL2x2") return enq(3, 1, 2, 2, true); if (s == "enqx2") return enq(2, 1, 2, 0, true);
     if (s == "mon_all") return mon_all(2, 1); if (s == "mon_all22") return mon_all(2, 2); if (s == "mon_one") return mon_one(2); if (s == "mon_pred") return mon_pred(2);
     if (s == "mon_abort") return mon_abort(2); if (s == "bq") return bq(1, 2, 2, 2); if (s == "bq2") return bq(2, 3, 1, 2); if (s == "bq13") return bq(1, 1, 3, 3);
+    if (s == "mtx2a") return mtx2(0); if (s == "mtx2b") return mtx2(1); if (s == "mtx2c") return mtx2(2); if (s == "mtx2d") return mtx2(3);
     if (s == "mtx") return mtx(3); if (s == "rwm") return rwm(0); if (s == "rwu") return rwm(1);
     if (s == "tgwait") return tgwait(2, 2, false); if (s == "tgwait3") return tgwait(3, 3, false); if (s == "tgwaitH") return tgwait(2, 2, true); if (s == "tgwait3H") return tgwait(3, 2, true);
     if (s == "exec1x3") return exec1(3, false); if (s == "exec1x4") return exec1(4, false); if (s == "exec1x3H") return exec1(3, true); if (s == "exec1x4H") return exec1(4, true);
